@@ -778,3 +778,26 @@ Theorem C15_collect_all_referrers :
     (Done, filter_referrers (filter vis L) (c_at c)).
 Proof. exact collect_all_referrers. Qed.
 Print Assumptions C15_collect_all_referrers.
+
+(* the decoder behind limitReader succeeds exactly when the first value of the body ends within
+   the limit, and then yields the whole value: body_fits (document length <= limit) of the
+   listing model is what the scanner-decoder does on the bytes *)
+Theorem C15_decoder_behind_limit :
+  forall body limit,
+    first_value (seen limit body) =
+    match scan body with
+    | Some m => if (Z.of_nat m <=? eff_limit limit)%Z then Some (firstn m body) else None
+    | None => None
+    end.
+Proof. exact scan_behind_limit. Qed.
+Print Assumptions C15_decoder_behind_limit.
+
+(* known finding link-rel-ignored, on the string level *)
+Theorem C15_link_rel_first_string_refuted :
+  exists header,
+    let base := mkS (b "http") (b "reg.test") (b "/v2/r/tags/list") (b "last=a") in
+    (exists pre, header = pre ++ b "<?last=b>; rel=""next""") /\
+    next_request (mkCfg KTags 0 0 []) base header = NNext (b "/v2/r/tags/list") [] /\
+    next_request (mkCfg KTags 0 0 []) base (b "<?last=b>; rel=""next""") = NNext (b "/v2/r/tags/list") (b "last=b").
+Proof. exact link_rel_first_string_refuted. Qed.
+Print Assumptions C15_link_rel_first_string_refuted.
